@@ -15,6 +15,12 @@ EXPLANATION = ("Counting rules on all MIR paths: a read API records exactly one 
 ASSUMPTIONS = ["crossbeam select! with a default arm lowers to try_select (non-blocking)"]
 
 
+def _zero_amount(a):
+    while isinstance(a, tuple) and a and a[0] == "cast":
+        a = a[1]
+    return isinstance(a, tuple) and a and a[0] == "const" and a[1] == 0
+
+
 def run(ctx):
     F = ctx.facts
     SM = StatsModel(ctx)
@@ -243,8 +249,9 @@ def run(ctx):
         bad = []
         nontrivial = 0
         for p in paths:
-            A = p.calls(added)
-            D = p.calls(dropped)
+            # (accounting the constant 0 changes nothing: `record(0)` for a non-Full event is not an accounting step)
+            A = [e_ for e_ in p.calls(added) if not (len(e_.args) > 1 and _zero_amount(e_.args[1]))]
+            D = [e_ for e_ in p.calls(dropped) if not (len(e_.args) > 1 and _zero_amount(e_.args[1]))]
             sends = [e for e in p.events if e.generic.endswith("SelectedOperation::<'_>::send") or "Sender::<T>::try_send" in e.generic]
             full = p.variant_of(("param", 2))
             is_full = full == ("Full",)
@@ -277,7 +284,13 @@ def run(ctx):
                 if D and sent_ok:
                     bad.append(("counted as dropped although the send succeeded", p))
             elif (A or D) and not nonempty:
-                bad.append(("empty/non-Full event accounted", p))
+                # accounting an empty buffer with exactly its length adds 0: harmless (`if size >= 0 { add(size) }`)
+                amt_ = (A or D)[0].args[1]
+                while amt_[0] == "cast":
+                    amt_ = amt_[1]
+                zero_amt = (amt_[0] == "const" and amt_[1] == 0) or (is_full and is_call_to(amt_, "Vec::<T, A>::len") and mentions(amt_, lambda z: z == ("param", 2)))
+                if not zero_amt or len(A) + len(D) != 1:
+                    bad.append(("empty/non-Full event accounted", p))
             elif (A or D) and not is_full:
                 bad.append(("a non-Full event is accounted", p))
         ctx.check(not bad and nontrivial >= 2, "R15.4", "%s|exactly-one-of-added-dropped" % f.name,
